@@ -10,7 +10,7 @@ complete) are kept as documented counter-examples that must still fail.
 Conformance: real meshes (chains of 1..4 hops, a diamond) over memnet links that lose, duplicate, delay and re-order
 data frames from the seed, while a third node sends both ends transient unreachable notices ('message expired', 'blocked by
 firewall') about the stream's own addresses (they must not end the stream), with a link on the active path cut mid-transfer while an alternative exists (endpoint-
-adjacent and transit); both applications write f(direction, offset)-patterned bytes with seeded write sizes and read
+adjacent, transit, and a transit link that first stops draining - back-pressure into the upstream session - and is then cut); both applications write f(direction, offset)-patterned bytes with seeded write sizes and read
 with seeded buffer sizes; the same transfers through the control service's connect bridge (real controlsvc on a Unix
 socket) and through a TCPProxyServiceInbound/Outbound pair. Every Write/Read/Close/EOF is logged and the logs are
 validated by TLC against StreamTrace.tla (Stream.tla's actions)."""
@@ -18,6 +18,7 @@ import os, re, shutil
 import vlib
 
 ASIS = {
+    "Stream_forwardwedge.cfg": "temporal",   # Complete/AllDelivered: a forwarder waiting for the node's context is wedged by a congested link that is cut (seeded c03-forward-waits-on-node-context)
     "Stream_acceptdeadline.cfg": "NoReadErrorWhileUp",   # a read deadline left armed by the accept path (seeded c03-accept-read-deadline-never-cleared)
     "Stream_noticefatal.cfg": "NoSpontaneousClose",   # a transient notice must not close the writing side (seeded change c03-any-unreach-cancels-stream)
     "Stream_origincut.cfg": "NoAbort",            # DESIGN.md section 9 #17, open finding
@@ -57,6 +58,8 @@ def run(tier, seed, replay=None):
     asis = {}
     for c, f in fa.items():
         r = f.result()
+        if re.search(r"Temporal propert(y|ies) .* (was|were) violated", r.output):
+            r.violated = "temporal"
         if r.violated != ASIS[c]:
             raise vlib.Inconclusive("%s is expected to violate %s (documented counter-example), got %s\n%s" % (c, ASIS[c], r.violated, r.output[-1500:]))
         asis[c] = ASIS[c]
